@@ -392,6 +392,16 @@ Fixpoint dict_ok (t : tree) : bool :=
 Definition top_ok (d : list (string * tree)) : bool :=
   forallb key_ok (map fst d) && snodup (map fst d) && forallb (fun kv => dict_ok (snd kv)) d.
 
+(* a str leaf equal to the None marker cannot be told from None after reading back *)
+Fixpoint no_marker (t : tree) : bool :=
+  match t with
+  | TStr s => negb (String.eqb s none_marker)
+  | TDict d => forallb (fun kv => no_marker (snd kv)) d
+  | _ => true
+  end.
+Definition h5_ok (sk : h5_sk) : bool :=
+  match h_none sk with Some s => String.eqb s none_marker | None => false end && h_recurse sk.
+
 (* the shapes that occur in result dictionaries: these can always be written *)
 Definition scalar_leaf (t : tree) : bool :=
   match t with
